@@ -48,28 +48,35 @@ class AsyncRecT(RecT):
         self.connected += 1
 
 
+def _foreign(obj):
+    return {"__not_a_library_object__": type(obj).__name__, "repr": repr(obj)[:200], "ch": {}, "vals": {}, "desc": None, "type": None}
+
+
 def projection(sensors):
-    """User-visible node/child/value tree."""
+    """User-visible node/child/value tree. Objects of a foreign shape (a dict where a ChildSensor belongs, ...) are
+    represented as such, so that comparisons report them instead of the harness failing."""
     out = {}
     for nid, s in sensors.items():
-        out[nid] = {
-            "id": s.sensor_id,
-            "type": s.type,
-            "pv": s.protocol_version,
-            "sn": s.sketch_name,
-            "sv": s.sketch_version,
-            "bat": s.battery_level,
-            "hb": s.heartbeat,
-            "ch": {
-                cid: {
-                    "id": ch.id,
-                    "type": ch.type,
-                    "desc": ch.description,
-                    "vals": dict(ch.values),
-                }
-                for cid, ch in s.children.items()
-            },
-        }
+        try:
+            out[nid] = {
+                "id": s.sensor_id,
+                "type": s.type,
+                "pv": s.protocol_version,
+                "sn": s.sketch_name,
+                "sv": s.sketch_version,
+                "bat": s.battery_level,
+                "hb": s.heartbeat,
+                "ch": {},
+            }
+            children = s.children.items()
+        except AttributeError:
+            out[nid] = _foreign(s)
+            continue
+        for cid, ch in children:
+            try:
+                out[nid]["ch"][cid] = {"id": ch.id, "type": ch.type, "desc": ch.description, "vals": dict(ch.values)}
+            except (AttributeError, TypeError, ValueError):
+                out[nid]["ch"][cid] = _foreign(ch)
     return out
 
 
